@@ -91,6 +91,12 @@ Proof. apply list_prod_map. Qed.
 Lemma in_list_prod {A B} (l : list A) (l' : list B) p : In p (list_prod l l') -> In (fst p) l /\ In (snd p) l'.
 Proof. destruct p as [a b]. intro H. apply in_prod_iff in H. exact H. Qed.
 
+Lemma fold_list_prod_enum {X Y Z} (f : Z -> X * Y -> Z) (l1 : list X) (l2 : list Y) z :
+  fold_left f (list_prod l1 l2) z = fold_left (fun a p => f a (snd (fst p), snd (snd p))) (list_prod (enum l1) (enum l2)) z.
+Proof.
+  rewrite <- (map_snd_enum l1) at 1. rewrite <- (map_snd_enum l2) at 1. rewrite list_prod_map'. now rewrite fold_left_map.
+Qed.
+
 Section Bridge.
   Variable c : @convolver ROps.
   Variable m : mask.
@@ -313,5 +319,126 @@ Section Bridge.
       destruct (Reqb (nth (Nat.max a b) (nth (Nat.min a b) A []) 0) 0) eqn:X; cbn [negb]; [|reflexivity].
       destruct (Reqb (nth (Nat.min a b) (nth (Nat.max a b) A []) 0) 0) eqn:Y; cbn [negb]; [|reflexivity].
       apply Reqb_true in Y. now rewrite Y.
+  Qed.
+
+  (* ============================================================================================== *)
+  (* Part D: the w-tilde curvature matrix before the mirror: the same sequence of block assignments    *)
+  Lemma KR_zero : t0 KR = 0.
+  Proof. reflexivity. Qed.
+  Lemma block_rel N (A B Bk : Rmat) r0 c0 h wd : Rel N A B -> shape h wd Bk -> (r0 + h <= N)%nat -> (c0 + wd <= N)%nat ->
+    Rel N (apply_mw KR A {| mw_r0 := r0; mw_r1 := r0 + h; mw_c0 := c0; mw_c1 := c0 + wd; mw_b := Bk |}) (@set_block ROps B r0 c0 Bk).
+  Proof.
+    intros (HA & HB & He) Hk Hr Hc0. split; [now apply shape_apply_mw|]. split.
+    - now destruct (set_block_spec N B Bk r0 c0 h wd HB Hk Hr Hc0).
+    - now apply (block_step KR KR_zero N A B Bk r0 c0 h wd).
+  Qed.
+  Lemma fold_rel {X} N (L : list X) (wr : X -> mwrite R) (st : Rmat -> X -> Rmat) :
+    (forall x A B, In x L -> Rel N A B -> Rel N (apply_mw KR A (wr x)) (st B x)) ->
+    forall A B, Rel N A B -> Rel N (apply_mws KR A (map wr L)) (fold_left st L B).
+  Proof.
+    induction L as [|x L IH]; intros H A B HR; [exact HR|]. unfold apply_mws in *. cbn [map fold_left].
+    apply IH; [intros x' A' B' Hx'; apply H; now right|]. apply H; [now left|exact HR].
+  Qed.
+  Lemma in_pairs_lt {A} (l : list A) p : In p (C04.pairs_lt l) -> In (fst p) l /\ In (snd p) l.
+  Proof.
+    induction l as [|x l IH]; simpl; [contradiction|]. intro H. apply in_app_or in H. destruct H as [H|H].
+    - apply in_map_iff in H. destruct H as [y [<- Hy]]. simpl. auto.
+    - destruct (IH H). auto.
+  Qed.
+
+  Variable w : wtilde R.
+  Variables (pre : Rvec) (idx lens : list nat).
+  Hypothesis Hdec : dec (wt_w w) = (pre, idx, lens).
+  Notation s := (C15.n inp).
+  Notation N := (total inp).
+
+  Lemma has_func_04 : existsb is_func objs4 = has_func inp.
+  Proof.
+    unfold has_func. pose proof fs04 as H. apply (f_equal (@length _)) in H.
+    rewrite combine_length, map_length in H.
+    assert (Hr : forall cls l k, length (@C04.ranges_from ROps cls l k) = length (filter cls l)).
+    { intros cls l. induction l as [|o l IH]; intro k; simpl; [reflexivity|]. destruct (cls o); simpl; now rewrite IH. }
+    rewrite Hr, Nat.min_id in H. rewrite <- H.
+    generalize objs4. intro l. induction l as [|o l IH]; [reflexivity|]. simpl. destruct (is_func o); [reflexivity|exact IH].
+  Qed.
+  Lemma mappers_len_04 : length (filter is_mapper objs4) = length (mappers inp).
+  Proof.
+    pose proof ms04 as H. apply (f_equal (@length _)) in H. rewrite combine_length, map_length in H.
+    assert (Hr : forall cls l k, length (@C04.ranges_from ROps cls l k) = length (filter cls l)).
+    { intros cls l. induction l as [|o l IH]; intro k; simpl; [reflexivity|]. destruct (cls o); simpl; now rewrite IH. }
+    now rewrite Hr, Nat.min_id in H.
+  Qed.
+  Lemma mapper_facts x : In x (mappers inp) ->
+    In (fst x) (objs inp) /\ lo_mapper (fst x) = true /\ snd (snd x) = (fst (snd x) + lo_p (fst x))%nat /\ (snd (snd x) <= N)%nat /\ (0 < lo_p (fst x))%nat.
+  Proof.
+    intro H. destruct (mapper_in15 x H) as [Ho Hm]. destruct (orng_in x Ho) as (a & b & c0).
+    destruct (opm_shape (fst x) a) as [_ Hp]. auto.
+  Qed.
+  Lemma func_facts x : In x (funcs inp) ->
+    In (fst x) (objs inp) /\ lo_mapper (fst x) = false /\ snd (snd x) = (fst (snd x) + lo_p (fst x))%nat /\ (snd (snd x) <= N)%nat /\
+    shape np (lo_p (fst x)) (opm (fst x)) /\ (0 < lo_p (fst x))%nat.
+  Proof.
+    intro H. destruct (func_in15 x H) as [Ho Hm]. destruct (orng_in x Ho) as (a & b & c0).
+    destruct (opm_shape (fst x) a) as [Hs Hp]. auto 7.
+  Qed.
+
+  Lemma p_pre_unfold : p_pre KR inp w =
+    apply_mws KR (apply_mws KR (p_cmd KR inp w) (map (fun xy : (lobj R * (nat * nat)) * (lobj R * (nat * nat)) =>
+        let x := fst xy in let y := snd xy in
+        {| mw_r0 := fst (snd x); mw_r1 := snd (snd x); mw_c0 := fst (snd y); mw_c1 := snd (snd y);
+           mw_b := k_off_wt KR (wt_w w) (lo_mm (fst x)) (lo_p (fst x)) (lo_mm (fst y)) (lo_p (fst y)) |}) (C15.pairs_lt (mappers inp))))
+      (if has_func inp then flm_writes KR inp (OffFresh R) (lf_fresh KR inp) else []).
+  Proof.
+    unfold p_pre, multi_writes. destruct (Nat.eqb (length (mappers inp)) 1) eqn:E1.
+    - apply Nat.eqb_eq in E1. destruct (mappers inp) as [|x [|y l]]; try discriminate. cbn [C15.pairs_lt map app].
+      destruct (has_func inp); reflexivity.
+    - destruct (has_func inp); reflexivity.
+  Qed.
+
+  Theorem p_pre_rel : Rel N (p_pre KR inp w) (@F_wt_pre ROps c pre idx lens objs4 s).
+  Proof.
+    rewrite p_pre_unfold. unfold F_wt_pre. rewrite total_params_tp, tp04, ms04, fs04, has_func_04.
+    rewrite pairs_lt_map, !list_prod_map'. rewrite !fold_left_map.
+    (* stage 1: _curvature_matrix_mapper_diag *)
+    assert (S1 : Rel N (p_cmd KR inp w)
+                   (fold_left (fun C x => @set_block ROps C (fst (snd (T2 x))) (fst (snd (T2 x)))
+                                 (@curv_preload ROps pre idx lens (enc_of (fst (T2 x))) (params (fst (T2 x))))) (mappers inp) (@zmat ROps N N))).
+    { unfold p_cmd, cmd_writes. apply fold_rel.
+      - intros x A B Hx HR. destruct (mapper_facts x Hx) as (Ho & Hm & Hhi & Hle & Hp). unfold T2. cbn [fst snd].
+        rewrite params_to04, (enc_of_to04 _ Hm). cbn [KR c04k k_curv_wt]. rewrite Hdec. rewrite Hhi.
+        apply block_rel; [exact HR | apply shape_curv_preload | lia | lia].
+      - split; [|split]; [apply shape_zmat | apply shape_zmat | intros a b _ _; reflexivity]. }
+    (* stage 2: _curvature_matrix_multi_mapper *)
+    rewrite pairs_lt_same.
+    match goal with |- Rel N (apply_mws KR (apply_mws KR _ (map ?W2 _)) _) (if _ then fold_left ?f4 _ (fold_left ?f3 _ (fold_left ?f2 _ ?C1)) else _) =>
+      assert (S2 : Rel N (apply_mws KR (p_cmd KR inp w) (map W2 (C04.pairs_lt (mappers inp)))) (fold_left f2 (C04.pairs_lt (mappers inp)) C1)) end.
+    { apply fold_rel; [|exact S1]. intros xy A B Hxy HR. destruct (in_pairs_lt _ _ Hxy) as [Hx Hy].
+      destruct (mapper_facts _ Hx) as (Ho & Hm & Hhi & Hle & Hp). destruct (mapper_facts _ Hy) as (Ho' & Hm' & Hhi' & Hle' & Hp').
+      unfold T2. cbn [fst snd]. rewrite !params_to04, (enc_of_to04 _ Hm), (enc_of_to04 _ Hm'). cbn [KR c04k k_off_wt]. rewrite Hdec.
+      rewrite Hhi, Hhi'. apply block_rel; [exact HR | now apply shape_off_diag | lia | lia]. }
+    destruct (has_func inp); [|unfold apply_mws at 1; exact S2].
+    (* stages 3 and 4: _curvature_matrix_func_list_and_mapper *)
+    unfold flm_writes. rewrite !flat_map_list_prod. rewrite (apply_mws_app R KR).
+    rewrite (fold_list_prod_enum _ (funcs inp) (funcs inp)), (fold_list_prod_enum _ (mappers inp) (funcs inp)).
+    apply fold_rel.
+    - intros p A B Hp HR. destruct (in_list_prod _ _ _ Hp) as [H0 H1].
+      destruct (fst p) as [f0 y0] eqn:E0. destruct (snd p) as [f1 y1] eqn:E1. cbn [fst snd] in *.
+      assert (Hy0 : In y0 (funcs inp)) by (rewrite <- (map_snd_enum (funcs inp)); apply in_map_iff; exists (f0, y0); auto).
+      assert (Hy1 : In y1 (funcs inp)) by (rewrite <- (map_snd_enum (funcs inp)); apply in_map_iff; exists (f1, y1); auto).
+      destruct (func_facts _ Hy0) as (Ho & Hm & Hhi & Hle & Hs & Hpp). destruct (func_facts _ Hy1) as (Ho' & Hm' & Hhi' & Hle' & Hs' & Hpp').
+      unfold T2. cbn [fst snd]. rewrite (lf_nth f0 y0 H0), (lf_nth f1 y1 H1). rewrite !(opmat_to04 _ Ho), !(opmat_to04 _ Ho').
+      cbn [KR c04k k_dotT k_wv]. rewrite Hhi, Hhi'.
+      apply block_rel; [exact HR | | lia | lia].
+      rewrite <- (ncols_shape _ _ _ Hs np_pos) at 1. rewrite <- (ncols_shape _ _ _ Hs' np_pos) at 1.
+      rewrite <- (ncols_div_rows (opm (fst y0)) s), <- (ncols_div_rows (opm (fst y1)) s). apply shape_dotTN.
+    - apply fold_rel; [|exact S2]. intros p A B Hp HR. destruct (in_list_prod _ _ _ Hp) as [H0 H1].
+      destruct (fst p) as [i x] eqn:E0. destruct (snd p) as [f y] eqn:E1. cbn [fst snd] in *.
+      assert (Hx : In x (mappers inp)) by (rewrite <- (map_snd_enum (mappers inp)); apply in_map_iff; exists (i, x); auto).
+      assert (Hy : In y (funcs inp)) by (rewrite <- (map_snd_enum (funcs inp)); apply in_map_iff; exists (f, y); auto).
+      destruct (mapper_facts _ Hx) as (Ho & Hm & Hhi & Hle & Hpp). destruct (func_facts _ Hy) as (Ho' & Hm' & Hhi' & Hle' & Hs' & Hpp').
+      unfold T2, off_block. cbn [fst snd]. rewrite (lf_nth f y H1). rewrite params_to04, (enc_of_to04 _ Hm), (opmat_to04 _ Ho').
+      cbn [KR c04k k_off_mf k_cw]. rewrite Hhi, Hhi'.
+      apply block_rel; [exact HR | | lia | lia].
+      rewrite <- (ncols_shape _ _ _ Hs' np_pos). rewrite <- (ncols_div_rows_sq (opm (fst y)) s). apply shape_off_mapper_func.
   Qed.
 End Bridge.
